@@ -15,7 +15,8 @@
 
    This file contains only the property theorems; proofs are in Proofs/NJobs.v. *)
 From Coq Require Import ZArith List Bool Lia.
-Require Import JV.Base.PyPrelude JV.Model.NJobs JV.Gen.T_njobs JV.Proofs.NJobs.
+Require Import JV.Base.PyPrelude JV.Model.NJobs JV.Gen.T_njobs JV.Gen.T_nested JV.Proofs.NJobs.
+Require Import JV.Model.C15Executor JV.Gen.T_executor JV.Proofs.C15Executor.
 Import ListNotations.
 Open Scope Z_scope.
 
@@ -116,6 +117,99 @@ Theorem C15_nesting :
   (forall c cpus, default_tree c = true -> procs (top_site cpus) c = frontier cpus c).
 Proof. exact C15_nesting_holds. Qed.
 Print Assumptions C15_nesting.
+
+(* get_nested_backend and configure REGENERATED from the source (Gen/T_nested.v): the nested backend of Threading / Loky /
+   Multiprocessing at level l is Threading(l+1) for l = 0 and Sequential(l+1) for l >= 1, with n_jobs None; Sequential hands
+   back the caller's active backend; <class>.configure returns the resolved n_jobs or raises
+   FallbackToBackend(Sequential at the same level) exactly when it is 1 (Raise (OtherError 1)); Parallel._initialize_backend
+   on top of the regenerated configure functions is the model's [configure] used by every nesting theorem *)
+Theorem C15_nested_backend_regenerated : forall b a,
+  base_get_nested_backend (blevel b) = Ok (nested_backend b, None) /\
+  seq_get_nested_backend a = Ok a /\
+  (blevel b = 0 -> base_get_nested_backend (blevel b) = Ok ({| bkind := KThr; blevel := 1 |}, None)) /\
+  (1 <= blevel b -> base_get_nested_backend (blevel b) = Ok ({| bkind := KSeq; blevel := blevel b + 1 |}, None)).
+Proof. exact C15_nested_backend_regenerated_holds. Qed.
+Print Assumptions C15_nested_backend_regenerated.
+
+Theorem C15_configure_regenerated : forall k e level n b,
+  configure_gen k e level n =
+    match eff_gen k e level n with
+    | Raise x => Raise x
+    | Ok v => match k with KSeq => Ok v | _ => if v =? 1 then Raise (OtherError 1) else Ok v end
+    end /\
+  initialize_backend_gen b e n = configure b e n.
+Proof. exact C15_configure_regenerated_holds. Qed.
+Print Assumptions C15_configure_regenerated.
+
+(* the thread pool, the loky executor and the multiprocessing pool are created with exactly the resolved n_jobs
+   (first argument of ThreadPool / get_memmapping_executor / MemmappingPool, regenerated) *)
+Theorem C15_pool_sized_to_n_jobs : forall n, thr_pool_size n = n /\ loky_pool_size n = n /\ mp_pool_size n = n.
+Proof. exact pool_sizes. Qed.
+Print Assumptions C15_pool_sized_to_n_jobs.
+
+(* NESTING NEVER MULTIPLIES BEYOND TWO LEVELS.  [conc s c]: tasks in flight at once if every pool runs as many tasks as it
+   has workers.  For EVERY tree of default-backend calls (induction on the tree):
+   - in a sequential context (below two parallel levels) every call runs one task at a time, whatever its n_jobs;
+   - in a worker thread of a first-level call: at most the largest resolved n_jobs of the subtree -- no product;
+   - from the top level: at most (largest n_jobs)^2 -- a product of at most TWO factors however deep the chain;
+   - a parallel top-level call: at most n_jobs(root) x largest n_jobs below it. *)
+Theorem C15_nesting_concurrency :
+  (forall c s, seq_site s -> default_tree c = true -> conc s c <= 1) /\
+  (forall c s, thr_site s -> default_tree c = true -> conc s c <= maxres (e_cpus (s_env s)) c) /\
+  (forall c cpus, default_tree c = true -> conc (top_site cpus) c <= maxres cpus c * maxres cpus c) /\
+  (forall cpus n children, n <> 0 -> resolve cpus n <> 1 -> default_tree (Call None n children) = true ->
+     conc (top_site cpus) (Call None n children) <= resolve cpus n * max_maxres cpus children).
+Proof. exact C15_nesting_concurrency_holds. Qed.
+Print Assumptions C15_nesting_concurrency.
+
+(* a chain 4 -> 3 -> 5 -> 7 of default calls runs at most 4 x 3 tasks at once: levels three and four add nothing *)
+Example C15_example_concurrency :
+  conc (top_site 16) (Call None 4 [Call None 3 [Call None 5 [Call None 7 []]]]) = 12 /\
+  seq_site (worker_site (worker_site (top_site 16) default_backend) {| bkind := KThr; blevel := 1 |}) /\
+  thr_site (worker_site (top_site 16) default_backend).
+Proof.
+  split; [vm_compute; reflexivity|]. split.
+  - eexists; split; [reflexivity|reflexivity].
+  - eexists; split; [reflexivity|]. cbn. split; [reflexivity|lia].
+Qed.
+Print Assumptions C15_example_concurrency.
+
+(* THE REUSABLE LOKY EXECUTOR (Model/C15Executor.v).  The three decisions are REGENERATED from the source
+   (Gen/T_executor.v): _resize does nothing only when the requested size equals the current one; a new executor is built
+   iff the current one is broken, shut down or the arguments changed; joblib asks for reuse iff the executor arguments are
+   the same as last time. *)
+Theorem C15_executor_decisions_regenerated : forall n cur b sd r an ae,
+  resize_noop n cur = resize_noop_model n cur /\ (resize_noop n cur = true -> n = cur) /\
+  needs_new b sd r = needs_new_model b sd r /\ args_reuse an ae = an || ae.
+Proof. exact executor_decisions. Qed.
+Print Assumptions C15_executor_decisions_regenerated.
+
+(* WHATEVER happened before -- any sequence of loky calls of any sizes, argument changes, task submissions, idle time-outs,
+   breakage, shutdown (induction over the history) -- the executor handed to a call whose n_jobs resolved to n has
+   _max_workers = n, at most n live workers, and exactly n once the tasks are submitted: never the size of an earlier,
+   larger call. *)
+Theorem C15_executor_reuse_bounded : forall ops n args s' e reused,
+  get_executor n args (erun ops init_state) = Ok (s', e, reused) ->
+  x_max e = n /\ 0 <= x_alive e <= n /\
+  exists e', s_exec (estep s' OSubmit) = Some e' /\ x_max e' = n /\ x_alive e' = n /\ x_id e' = x_id e.
+Proof. exact reuse_bounded. Qed.
+Print Assumptions C15_executor_reuse_bounded.
+
+(* a resolved n_jobs (>= 1, C15_at_least_one) is never refused, and the executor object is kept exactly when it is healthy
+   and the arguments did not change *)
+Theorem C15_executor_reuse_iff : forall n args s e0, 1 <= n -> s_exec s = Some e0 ->
+  exists s' e reused, get_executor n args s = Ok (s', e, reused) /\
+  (reused = true <-> (x_broken e0 = false /\ x_shutdown e0 = false /\ (s_args s = None \/ s_args s = Some args))).
+Proof. exact reuse_iff. Qed.
+Print Assumptions C15_executor_reuse_iff.
+
+Example C15_example_executor :
+  let s := erun [OGet 4 7; OSubmit; OGet 2 7; OSubmit; OTimeout 1; OGet 3 7; OSubmit; OGet 3 8] init_state in
+  option_map (fun e => (x_id e, x_max e, x_alive e)) (s_exec s) = Some (1, 3, 0) /\
+  option_map (fun e => (x_id e, x_max e, x_alive e))
+             (s_exec (erun [OGet 4 7; OSubmit; OGet 2 7; OSubmit] init_state)) = Some (0, 2, 2).
+Proof. vm_compute. split; reflexivity. Qed.
+Print Assumptions C15_example_executor.
 
 (* non-vacuity: hypotheses of the implications above are satisfiable, on non-trivial data *)
 Example C15_example_env : unguarded {| e_mp_none := false; e_cpus := 16; e_daemon := false; e_depth := 0; e_main := true |} 0.
